@@ -8,9 +8,13 @@ Model of the ordinal-window mechanism (C10):
 * forml/io/_input/__init__.py           `Feed.load` (passes the bounds through unchanged)
 * forml/runtime/_agent.py               `Runner.train` (default lower bound from the training tag)
 
-`Prepared.__call__` and `Runner.train` are modelled **as repaired** by fixes/C10-falsy-bounds.diff
-(`is not None` instead of truthiness); the behaviour of the unrepaired code is kept next to them
-as `preparedLegacy` / `trainLowerLegacy` so that the defect is stated and refuted in Props/C10.
+`Prepared.__call__` and `Runner.train` are modelled as they are since /repo commit 6817cb6
+(fixes/C10-falsy-bounds.diff: `is not None` instead of truthiness); the behaviour of the earlier
+code is kept next to them as `preparedLegacy` / `trainLowerLegacy` so that the defect is stated and
+refuted in Props/C10.
+
+The ordinal axis is an arbitrary type `α` with decidable `≤`, `<`, `=` (see OrdinalCmp.lean); the
+driver runs the model at `α := Int`.
 
 The table of bound operators, the enum members and the alias spellings come from
 ForML/Generated/C10Tables.lean (regenerated from the live enum on every run).
@@ -122,24 +126,59 @@ def castType (k : Kind) (t : PyT) : Option PyT :=
 
 /-- a bound as given by the caller: the Python value class, the point of the ordinal axis that
 the value denotes (meaningful when the cast succeeds) and `bool(value)` -/
-structure Raw where
+structure Raw (α : Type) where
   ty : PyT
-  pt : Int
+  pt : α
   truthy : Bool
   deriving DecidableEq, Repr
 
-def cast (k : Kind) (r : Raw) : Except Err Int :=
+section
+variable {α : Type}
+
+def cast (k : Kind) (r : Raw α) : Except Err α :=
   match castRule k r.ty with
   | .err => .error .castError
   | _ => .ok r.pt
 
+/-! ### `Runner.train`: default lower bound -/
+
+def truthyOpt : Option (Raw α) → Bool
+  | none => false
+  | some r => r.truthy
+
+/-- repaired: `if lower is None: lower = tag.training.ordinal` -/
+def trainLower (lower tag : Option (Raw α)) : Option (Raw α) :=
+  match lower with
+  | some r => some r
+  | none => tag
+
+/-- the code before the repair: `lower or tag.training.ordinal` -/
+def trainLowerLegacy (lower tag : Option (Raw α)) : Option (Raw α) :=
+  if truthyOpt lower then lower else tag
+
+/-- consecutive windows `(b₀,b₁), (b₁,b₂), …` of a bound sequence -/
+def consecutive {β : Type} : List β → List (Option β × Option β)
+  | a :: b :: r => (some a, some b) :: consecutive (b :: r)
+  | _ => []
+
+/-- incremental training: `Runner.train(upper=uₖ)` launched repeatedly *without* an explicit lower
+bound, where the tag of the generation each training starts from carries the previous training's
+upper bound as `tag.training.ordinal` (recorded with `tag.training.replace(ordinal=…)`; forml's
+runner reads that attribute but does not write it — an assumption about the caller).  Result:
+the `(lower, upper)` pair handed to `Feed.load` by each training. -/
+def trainChain (tag : Option (Raw α)) : List (Raw α) → List (Option (Raw α) × Option (Raw α))
+  | [] => []
+  | u :: r => (trainLower none tag, some u) :: trainChain (some u) r
+
+variable [LE α] [LT α] [DecidableLE α] [DecidableLT α] [DecidableEq α]
+
 /-! ### `Ordinal.where` -/
 
-abbrev Term := Cmp × Int
+abbrev Term (α : Type) := Cmp × α
 
 /-- `Ordinal.where(lower, upper)`: one term per bound that `is not None`, lower first, each bound
 cast to the column's kind; `[]` stands for the `None` result (no predicate) -/
-def whereTerms (sem : Once) (k : Kind) (lo hi : Option Raw) : Except Err (List Term) := do
+def whereTerms (sem : Once) (k : Kind) (lo hi : Option (Raw α)) : Except Err (List (Term α)) := do
   let l ← match lo with
     | none => pure []
     | some r => do pure [((onceTable sem).1, ← cast k r)]
@@ -149,7 +188,7 @@ def whereTerms (sem : Once) (k : Kind) (lo hi : Option Raw) : Except Err (List T
   pure (l ++ u)
 
 /-- the conjunction `functools.reduce(operator.and_, terms)` evaluated on one record -/
-def evalTerms : List Term → Int → Bool
+def evalTerms : List (Term α) → α → Bool
   | [], _ => true
   | (c, b) :: r, x => c.eval x b && evalTerms r x
 
@@ -157,47 +196,48 @@ def evalTerms : List Term → Int → Bool
 
 /-- repaired: `elif lower is not None or upper is not None: raise UnexpectedError`.
 Result: the terms added to the statement's where clause (`[]` = statement unchanged). -/
-def prepared (ord : Option (Kind × Once)) (lo hi : Option Raw) : Except Err (List Term) :=
+def prepared (ord : Option (Kind × Once)) (lo hi : Option (Raw α)) : Except Err (List (Term α)) :=
   match ord with
   | some (k, sem) => whereTerms sem k lo hi
   | none => if lo.isSome || hi.isSome then .error .unexpectedError else .ok []
 
-def truthyOpt : Option Raw → Bool
-  | none => false
-  | some r => r.truthy
-
 /-- the code before the repair: `elif lower or upper:` -/
-def preparedLegacy (ord : Option (Kind × Once)) (lo hi : Option Raw) : Except Err (List Term) :=
+def preparedLegacy (ord : Option (Kind × Once)) (lo hi : Option (Raw α)) : Except Err (List (Term α)) :=
   match ord with
   | some (k, sem) => whereTerms sem k lo hi
   | none => if truthyOpt lo || truthyOpt hi then .error .unexpectedError else .ok []
 
-/-- rows (positions in `data`) delivered by one launch -/
-def deliverIdx (ts : List Term) (data : List Int) : List Nat :=
+/-- rows (positions in `data`) delivered by one launch; `data` = the ordinals of the records that
+the base statement denotes -/
+def deliverIdx (ts : List (Term α)) (data : List α) : List Nat :=
   (data.zipIdx.filter (fun p => evalTerms ts p.1)).map (·.2)
 
 /-- one launch through `Feed.load` → driver → `Prepared.__call__` → reader -/
-def launch (ord : Option (Kind × Once)) (lo hi : Option Raw) (data : List Int) :
+def launch (ord : Option (Kind × Once)) (lo hi : Option (Raw α)) (data : List α) :
     Except Err (List Nat) :=
   (prepared ord lo hi).map (deliverIdx · data)
 
-/-! ### `Runner.train`: default lower bound -/
+/-- a history of launches over the same data (the first refused launch ends the history) -/
+def launches (ord : Option (Kind × Once)) :
+    List (Option (Raw α) × Option (Raw α)) → List α → Except Err (List (List Nat))
+  | [], _ => .ok []
+  | w :: r, data =>
+    match launch ord w.1 w.2 data with
+    | .error e => .error e
+    | .ok l =>
+      match launches ord r data with
+      | .error e => .error e
+      | .ok ls => .ok (l :: ls)
 
-/-- repaired: `lower if lower is not None else tag.training.ordinal` -/
-def trainLower (lower tag : Option Raw) : Option Raw :=
-  match lower with
-  | some r => some r
-  | none => tag
-
-/-- the code before the repair: `lower or tag.training.ordinal` -/
-def trainLowerLegacy (lower tag : Option Raw) : Option Raw :=
-  if truthyOpt lower then lower else tag
+/-- how many launches of a history delivered the record at position `i` -/
+def timesDelivered (ls : List (List Nat)) (i : Nat) : Nat :=
+  (ls.map (List.count i)).sum
 
 /-! ### windows over already-cast bounds (what the theorems talk about) -/
 
 /-- membership of a record with ordinal `x` in the window `(lo, hi)` under a semantic:
 `Ordinal.where` with native bounds, evaluated -/
-def inWindow (sem : Once) (lo hi : Option Int) (x : Int) : Bool :=
+def inWindow (sem : Once) (lo hi : Option α) (x : α) : Bool :=
   (match lo with
    | none => true
    | some b => (onceTable sem).1.eval x b) &&
@@ -205,27 +245,32 @@ def inWindow (sem : Once) (lo hi : Option Int) (x : Int) : Bool :=
    | none => true
    | some b => (onceTable sem).2.eval x b)
 
+/-- number of windows of an arbitrary window list that accept `x` -/
+def hits (sem : Once) : List (Option α × Option α) → α → Nat
+  | [], _ => 0
+  | w :: r, x => (if inWindow sem w.1 w.2 x then 1 else 0) + hits sem r x
+
 /-- number of consecutive windows `(b₀,b₁), (b₁,b₂), …` that deliver a record with ordinal `x` -/
-def deliveries (sem : Once) : List Int → Int → Nat
+def deliveries (sem : Once) : List α → α → Nat
   | lo :: hi :: r, x => (if inWindow sem (some lo) (some hi) x then 1 else 0) + deliveries sem (hi :: r) x
   | _, _ => 0
 
 /-- last bound of a non-empty sequence `a :: r` -/
-def last (a : Int) : List Int → Int
+def last (a : α) : List α → α
   | [] => a
   | b :: r => last b r
 
 /-- the same with an open first window `(None, b₀)` and an open last window `(bₙ, None)` -/
-def deliveriesOpen (sem : Once) (b0 : Int) (r : List Int) (x : Int) : Nat :=
+def deliveriesOpen (sem : Once) (b0 : α) (r : List α) (x : α) : Nat :=
   (if inWindow sem none (some b0) x then 1 else 0) + deliveries sem (b0 :: r) x +
   (if inWindow sem (some (last b0 r)) none x then 1 else 0)
 
 /-- strictly increasing -/
-def StrictInc : List Int → Prop
+def StrictInc : List α → Prop
   | a :: b :: r => a < b ∧ StrictInc (b :: r)
   | _ => True
 
-instance : (l : List Int) → Decidable (StrictInc l)
+instance : (l : List α) → Decidable (StrictInc l)
   | [] => isTrue trivial
   | [_] => isTrue trivial
   | a :: b :: r =>
@@ -235,8 +280,10 @@ instance : (l : List Int) → Decidable (StrictInc l)
     else isFalse (fun x => h x.1)
 
 /-- how often `x` occurs among the bounds that are neither the first nor the last one -/
-def interiorHits : List Int → Int → Nat
+def interiorHits : List α → α → Nat
   | _ :: b :: c :: r, x => (if x = b then 1 else 0) + interiorHits (b :: c :: r) x
   | _, _ => 0
+
+end
 
 end ForML.Ordinal
